@@ -14,7 +14,7 @@ from hv.worlds import World, profile, st_world, world_summary
 PROP = "C15"
 RULE = ("generated file-based scenarios (requests, time-varying prices, human and autonomous vehicles, petrol and electric, built-in generators plus a "
         "deterministic state-only scripted controller and a stateful one that returns an updated copy of itself every step, eager and lazy readers, all network kinds) and a random composition n = a1+...+am; the "
-        "scenario is loaded fresh three times in one process: (A) crank(a1)...crank(am), optionally re-injecting the built-in generators between "
+        "scenario is loaded fresh three times in one process (a third of the scenarios through hive_cosim.load_scenario itself, with a controller that draws from the global random module): (A) crank(a1)...crank(am), optionally re-injecting the built-in generators between "
         "calls through runner_payload_ops, (B) crank(n), (C) LocalSimulationRunner.run with end = start + n*dt; a handler snapshots the state at every "
         "flush; per step k the canonical state (instance ids stripped, set-valued fields sorted) and the multiset of events must be equal across "
         "A/B/C and sim_time == start + k*dt. Separately, with an arbitrary end time, the step() loop must execute exactly the steps beginning in "
@@ -31,7 +31,7 @@ PROFILE = profile(nv=(1, 5), n_requests=(5, 40), builtin=[True], n_scripted=[1],
 def st_case(draw) -> Dict[str, Any]:
     w = draw(st_world(PROFILE))
     parts = draw(st.lists(st.integers(1, 30), min_size=1, max_size=6) | st.lists(st.integers(1, 12), min_size=3, max_size=6))
-    return {"world": w, "parts": parts, "reinject": draw(st.sampled_from([False, True, "all"])), "det": draw(st.sampled_from([True, True, False])), "stateful": draw(st.booleans()),
+    return {"world": w, "parts": parts, "reinject": draw(st.sampled_from([False, True, "all"])), "via_cosim": draw(st.sampled_from([False, False, True])), "det": draw(st.sampled_from([True, True, False])), "stateful": draw(st.booleans()),
             "end_offset": draw(st.integers(0, 3 * w["sim"]["timestep_duration_seconds"])), "range_steps": draw(st.integers(0, 12))}
 
 
@@ -64,6 +64,31 @@ def _det_controller():
             return self, tuple(out)
 
     return DetController()
+
+
+def _random_controller():
+    import random
+
+    from nrel.hive.dispatcher.instruction import instructions as I
+    from nrel.hive.dispatcher.instruction_generator.instruction_generator import InstructionGenerator
+
+    class RandomController(InstructionGenerator):
+        """stateless, but draws from the process-wide `random` module on every call"""
+
+        def generate_instructions(self, sim, env):
+            vs = sorted(sim.vehicles.keys())
+            bs = sorted(sim.bases.keys())
+            out = []
+            if vs and bs and random.random() < 0.4:
+                v = sim.vehicles[vs[random.randrange(len(vs))]]
+                n = type(v.vehicle_state).__name__
+                if n == "Idle":
+                    out.append(I.DispatchBaseInstruction(v.id, bs[random.randrange(len(bs))]))
+                elif n in ("ReserveBase", "DispatchBase"):
+                    out.append(I.IdleInstruction(v.id))
+            return self, tuple(out)
+
+    return RandomController()
 
 
 def _stateful_controller():
@@ -119,8 +144,15 @@ def _load(case, end_steps):
     sim = dict(w["sim"])
     sim["end_time"] = sim["start_time"] + end_steps * sim["timestep_duration_seconds"]
     w["sim"] = sim
-    world = World(w, gens=None)
-    if case["det"]:
+    world = World(w, gens=None, via_cosim=bool(case.get("via_cosim")))
+    if case.get("via_cosim"):
+        # a user-style controller that draws from the global random module (as examples/cosim_custom_dispatcher.py does):
+        # every fresh load through hive_cosim.load_scenario starts it from the same seeded stream
+        from nrel.hive.runner import runner_payload_ops as rpo
+
+        cfg = world.rp.e.config.dispatcher
+        world.rp = rpo.set_instruction_generators(world.rp, (Dispatcher(cfg), ChargingFleetManager(cfg), _random_controller()))
+    elif case["det"]:
         from nrel.hive.runner import runner_payload_ops as rpo
 
         cfg = world.rp.e.config.dispatcher
